@@ -1,4 +1,252 @@
-/-! Line protocol handler for the `heap` domain (stub until the model exists). -/
+import OFCore.Heap
+/-! Line protocol for the `heap` domain (clone / non-interference, property C13). Mathlib-free.
+
+```
+heap run <sys> <spec> <pre> <trace> <ops>
+    -> <alias graph>|<step>|<step>|…        or ERR (the model could not build / clone)
+sys   = <var>;<var>;…          var  = <entity>:<unit>:<default>:<formula>
+                               formula = - | <const>{+<coef>*<dep>.<via>.<pt>}   via = s|m|p   pt = s|l
+spec  = <persons>/<groups>/<mem>   groups = - | <entity>:<count>:<g.g.g…>,…   (g = group index of each person)
+                               mem = - | d | d<v>.<v>…   (MemoryConfig(max_memory_occupation=0, priority_variables))
+pre   = - | <op>;<op>…         operations on the original before `clone(trace=<trace>)`
+ops   = - | <side><op>;…       side = o | c
+op    = s:<v>:<period>:<x,x,…> | d:<v>:<period|*> | k:<v>:<period> | a:<v>:<period> | t:<0|1> | h:<v>
+period = eternity | <unit>/<y>,<m>,<d>/<size>
+step  = <result>;O<obs>;C<obs>       result = ok | ERR | <x,x,…>
+```
+The alias graph lists, for every reference field of the original and of the clone, the canonical
+name of the object it designates (objects are named by the first path that reaches them, the
+original's paths first): a field of the clone whose target is named `o.…` is shared. -/
 namespace OFCore.Drv
-def handleHeap (_args : List String) : String := "BAD"
+open OFCore OFCore.Heap
+
+def hAllSome {α} : List (Option α) → Option (List α)
+  | [] => some []
+  | none :: _ => none
+  | some a :: r => (hAllSome r).map (a :: ·)
+
+def splitList (s : String) (sep : String) : List String := if s = "-" ∨ s = "" then [] else s.splitOn sep
+
+def hParseDate? (s : String) : Option Date :=
+  match s.splitOn "," with
+  | [y, m, d] => do pure ⟨← y.toInt?, ← m.toInt?, ← d.toInt?⟩
+  | _ => none
+
+def hParsePeriod? (s : String) : Option Period :=
+  if s = "eternity" then some Period.eternity else
+  match s.splitOn "/" with
+  | [u, d, n] => do pure ⟨← DUnit.ofName u, ← hParseDate? d, ← n.toInt?⟩
+  | _ => none
+
+def hShowPeriod (p : Period) : String :=
+  if p.unit = .eternity then "eternity" else s!"{p.unit.name}/{p.start.y},{p.start.m},{p.start.d}/{p.size}"
+
+def parseInts? (s : String) : Option (List Int) := hAllSome ((splitList s ",").map String.toInt?)
+def parseNatsDot? (s : String) : Option (List Nat) := hAllSome ((splitList s ".").map String.toNat?)
+
+def parseTerm? (s : String) : Option Term :=
+  match s.splitOn "*" with
+  | [c, rest] =>
+    match rest.splitOn "." with
+    | [d, via, pt] => do
+      let via ← (if via = "s" then some Via.same else if via = "m" then some Via.members
+                 else if via = "p" then some Via.project else none)
+      let pt ← (if pt = "s" then some PT.same else if pt = "l" then some PT.lastMonth else none)
+      pure ⟨← c.toInt?, ← d.toNat?, via, pt⟩
+    | _ => none
+  | _ => none
+
+def parseFormula? (s : String) : Option (Option (Int × List Term)) :=
+  if s = "-" then some none else
+  match s.splitOn "+" with
+  | c :: ts => do
+    let c ← c.toInt?
+    let ts ← hAllSome (ts.map parseTerm?)
+    pure (some (c, ts))
+  | [] => none
+
+def parseVar? (s : String) : Option VarDecl :=
+  match s.splitOn ":" with
+  | [e, u, d, f] => do pure ⟨← e.toNat?, ← DUnit.ofName u, ← d.toInt?, ← parseFormula? f⟩
+  | _ => none
+
+def parseSys? (s : String) : Option Sys := hAllSome ((splitList s ";").map parseVar?)
+
+def parseGroup? (s : String) : Option GroupSpec :=
+  match s.splitOn ":" with
+  | [e, n, ms] => do pure ⟨← e.toNat?, ← n.toNat?, ← parseNatsDot? ms⟩
+  | _ => none
+
+def parseMem? (s : String) : Option (Option MemConfig) :=
+  if s = "-" then some none
+  else if s.startsWith "d" then do
+    let vs ← parseNatsDot? (s.drop 1).toString
+    pure (some ⟨vs⟩)
+  else none
+
+def parseSpec? (s : String) : Option SimSpec :=
+  match s.splitOn "/" with
+  | [n, gs, m] => do
+    let gs ← hAllSome ((splitList gs ",").map parseGroup?)
+    pure ⟨← n.toNat?, gs, ← parseMem? m⟩
+  | _ => none
+
+def parseOp? (s : String) : Option Op :=
+  match s.splitOn ":" with
+  | ["s", v, p, xs] => do pure (.setInput (← v.toNat?) (← hParsePeriod? p) (← parseInts? xs))
+  | ["d", v, p] => do
+    let v ← v.toNat?
+    if p = "*" then pure (.deleteArrays v none) else pure (.deleteArrays v (some (← hParsePeriod? p)))
+  | ["k", v, p] => do pure (.calculate (← v.toNat?) (← hParsePeriod? p))
+  | ["a", v, p] => do pure (.calculateAdd (← v.toNat?) (← hParsePeriod? p))
+  | ["t", b] => if b = "1" then some (.setTrace true) else if b = "0" then some (.setTrace false) else none
+  | ["h", v] => do pure (.touch (← v.toNat?))
+  | _ => none
+
+def parseSideOp? (s : String) : Option (Side × Op) :=
+  if s.startsWith "o" then (parseOp? (s.drop 1).toString).map (fun o => (Side.orig, o))
+  else if s.startsWith "c" then (parseOp? (s.drop 1).toString).map (fun o => (Side.clone, o))
+  else none
+
+/-! ### printing -/
+
+def showB (b : Bool) : String := if b then "T" else "F"
+def showVec (v : Vec) : String := ",".intercalate (v.map toString)
+def showKey (k : Key) : String := s!"{k.1}@{hShowPeriod k.2}"
+def sortStrings (l : List String) : List String := l.mergeSort (fun a b => decide (a ≤ b))
+def dedup : List String → List String
+  | a :: b :: r => if a = b then dedup (b :: r) else a :: dedup (b :: r)
+  | l => l
+
+def showHolderObs (o : HolderObs) : String :=
+  let items := o.known.map (fun e => hShowPeriod e.1 ++ "=" ++ (match e.2 with | some v => showVec v | none => "none"))
+  s!"v{o.var}:{showB o.ownPop}{showB o.ownSim}:" ++ "&".intercalate (dedup (sortStrings items))
+
+def showPopObs (o : PopObs) : String :=
+  let hs := (o.holders.mergeSort (fun a b => decide (a.var ≤ b.var))).map showHolderObs
+  s!"e{o.entity}:{showB o.ownSim}{showB o.ownMembers}:n{o.count}:" ++ ".".intercalate (o.membersEntityId.map toString)
+    ++ ":[" ++ " ".intercalate hs ++ "]"
+
+def showObs (o : Obs) : String :=
+  let pops := (o.pops.mergeSort (fun a b => decide (a.entity ≤ b.entity))).map showPopObs
+  s!"t{showB o.trace}{showB o.full}[" ++ " ".intercalate (o.roots.map showKey) ++ "]s" ++ toString o.stack.length
+    ++ "i[" ++ " ".intercalate (sortStrings (o.inval.map showKey)) ++ "]p" ++ showB o.personsListed
+    ++ "{" ++ " ".intercalate pops ++ "}"
+
+def showObsOf (h : Heap) (x : Id) : String :=
+  match (observe x h).1 with
+  | .ok o => showObs o
+  | .error _ => "ERR"
+
+def showRes : Except Err Out → String
+  | .ok .done => "ok"
+  | .ok (.vec v) => showVec v
+  | .ok .zero => "0"
+  | .error _ => "ERR"
+
+/-! ### alias graph -/
+
+def sortedBy {α} (key : α → Nat) (l : List α) : List α := l.mergeSort (fun a b => decide (key a ≤ key b))
+
+/-- the objects of a simulation in traversal order, with the path that reaches them -/
+def simObjects (h : Heap) (pre : String) (x : Id) : List (Id × String) :=
+  match (h.get? x).bind Obj.sim? with
+  | none => [(x, pre)]
+  | some so =>
+    [(x, pre), (so.tracer, pre ++ ".tr"), (so.inval, pre ++ ".iv")]
+    ++ (match so.dir with | some d => [(d, pre ++ ".dir")] | none => [])
+    ++ (sortedBy (fun e => e.1) so.pops).flatMap (fun (k, pid) =>
+      let pn := s!"{pre}.e{k}"
+      (pid, pn) ::
+      match (h.get? pid).bind Obj.pop? with
+      | none => []
+      | some po =>
+        (sortedBy (fun e => e.1) po.holders).flatMap (fun (v, hid) =>
+          let hn := s!"{pn}.h{v}"
+          (hid, hn) ::
+          match (h.get? hid).bind Obj.holder? with
+          | none => []
+          | some ho => (ho.mem, hn ++ ".mem") :: (match ho.disk with | some d => [(d, hn ++ ".disk")] | none => [])))
+
+def nameOf (names : List (Id × String)) (p : Id) : String :=
+  match names.find? (fun e => e.1 = p) with
+  | some e => e.2
+  | none => "?"
+
+def nameOpt (names : List (Id × String)) : Option Id → String
+  | some p => nameOf names p
+  | none => "none"
+
+/-- every reference field of a simulation with the name of its target -/
+def simFields (h : Heap) (names : List (Id × String)) (pre : String) (x : Id) : List String :=
+  match (h.get? x).bind Obj.sim? with
+  | none => [pre ++ "=ERR"]
+  | some so =>
+    [s!"{pre}.persons={nameOf names so.persons}", s!"{pre}.pops={nameOf names x}.pops",
+     s!"{pre}.tracer={nameOf names so.tracer}", s!"{pre}.inval={nameOf names so.inval}",
+     s!"{pre}.dir={nameOpt names so.dir}"]
+    ++ (sortedBy (fun e => e.1) so.pops).flatMap (fun (k, pid) =>
+      let pn := s!"{pre}.e{k}"
+      s!"{pn}={nameOf names pid}" ::
+      match (h.get? pid).bind Obj.pop? with
+      | none => [pn ++ "=ERR"]
+      | some po =>
+        [s!"{pn}.sim={nameOf names po.sim}", s!"{pn}.hs={nameOf names pid}.hs",
+         s!"{pn}.members={nameOpt names po.members}"]
+        ++ (sortedBy (fun e => e.1) po.holders).flatMap (fun (v, hid) =>
+          let hn := s!"{pn}.h{v}"
+          s!"{hn}={nameOf names hid}" ::
+          match (h.get? hid).bind Obj.holder? with
+          | none => [hn ++ "=ERR"]
+          | some ho =>
+            [s!"{hn}.pop={nameOf names ho.pop}", s!"{hn}.sim={nameOf names ho.sim}",
+             s!"{hn}.mem={nameOf names ho.mem}", s!"{hn}.arr={nameOf names ho.mem}.arr",
+             s!"{hn}.disk={nameOpt names ho.disk}"]
+            ++ (match ho.disk with
+                | some d => match (h.get? d).bind Obj.disk? with
+                  | some dk => [s!"{hn}.ddir={nameOf names dk.dir}"]
+                  | none => [hn ++ ".ddir=ERR"]
+                | none => [])))
+
+def aliasGraph (h : Heap) (s c : Id) : String :=
+  let names := simObjects h "o" s ++ simObjects h "c" c
+  " ".intercalate (simFields h names "o" s ++ simFields h names "c" c)
+
+/-! ### the handler -/
+
+def fuelDefault : Nat := 40
+
+def runSteps (sys : Sys) (s c : Id) : List (Side × Op) → Heap → List String
+  | [], _ => []
+  | (sd, op) :: rest, h =>
+    let (r, h1) := step sys fuelDefault (sideId s c sd) op h
+    (showRes r ++ ";O" ++ showObsOf h1 s ++ ";C" ++ showObsOf h1 c) :: runSteps sys s c rest h1
+
+/-- what the adapter refuses as well: group entities ≥ 1 and distinct, variables in declared entities,
+one group index below the group count per person -/
+def wellFormed (sys : Sys) (spec : SimSpec) : Bool :=
+  let ks := spec.groups.map (fun g => g.entity)
+  ks.all (fun k => k ≠ 0) && ks.Nodup
+  && spec.groups.all (fun g => g.membersEntityId.length = spec.persons && g.membersEntityId.all (fun i => i < g.count))
+  && sys.all (fun d => d.entity = 0 || ks.contains d.entity)
+
+def handleHeap (args : List String) : String :=
+  match args with
+  | ["run", sys, spec, pre, tr, ops] =>
+    match parseSys? sys, parseSpec? spec, hAllSome ((splitList pre ";").map parseOp?),
+          hAllSome ((splitList ops ";").map parseSideOp?) with
+    | some sys, some spec, some pre, some ops =>
+      if tr ≠ "0" ∧ tr ≠ "1" then "BAD" else
+      if !wellFormed sys spec then "BAD" else
+      match build spec [] with
+      | (.error _, _) => "ERR"
+      | (.ok s, h0) =>
+        let h1 := runSide sys fuelDefault s pre h0
+        match cloneSim s (tr = "1") h1 with
+        | (.error _, _) => "ERR"
+        | (.ok c, h2) =>
+          "|".intercalate ((aliasGraph h2 s c ++ ";O" ++ showObsOf h2 s ++ ";C" ++ showObsOf h2 c) :: runSteps sys s c ops h2)
+    | _, _, _, _ => "BAD"
+  | _ => "BAD"
+
 end OFCore.Drv
